@@ -268,6 +268,101 @@ class Flow:
                     out.append(sub)
         return out
 
+    # ------------------------------------------------------------- temporaries
+    def temp_def(self, var: str) -> Def | None:
+        """The definition of ``var`` when it is a pure temporary: a local bound exactly once, by a plain
+        ``var = <expr>`` statement, and read exactly once in the whole function."""
+        key = ("temp", var)
+        if key not in self._memo:
+            ds = self.defs_of(var)
+            loads = [n for n in ast.walk(self.fi.node) if isinstance(n, ast.Name) and n.id == var and isinstance(n.ctx, ast.Load)]
+            ok = len(ds) == 1 and ds[0].kind == "assign" and isinstance(ds[0].target, ast.Name) and len(loads) == 1 \
+                and isinstance(ds[0].stmt, (ast.Assign, ast.AnnAssign)) and not (isinstance(ds[0].stmt, ast.Assign) and len(ds[0].stmt.targets) != 1)
+            self._memo[key] = ds[0] if ok else None
+        return self._memo[key]
+
+    def inline(self, expr: ast.AST, at: ast.AST | Node | None = None, depth: int = 6) -> ast.AST:
+        """A copy of ``expr`` in which every pure temporary (see ``temp_def``) is replaced by its defining
+        expression, provided the names that expression reads have the same reaching definitions at
+        the temporary's definition and at ``at``.  ``x = f(_t)`` with ``_t = g(y)`` reads as ``f(g(y))``."""
+        if at is None:
+            at = self.cfg.node(expr)
+        at_node = at if isinstance(at, Node) else self.cfg.node(at)
+        flow = self
+
+        class Sub(ast.NodeTransformer):
+            def visit_Name(self, node):
+                if not isinstance(node.ctx, ast.Load) or depth <= 0:
+                    return node
+                d = flow.temp_def(node.id)
+                if d is None or d.value is None or d.node is None:
+                    return node
+                rd = flow.reaching(node.id, at_node)
+                if len(rd) != 1 or rd[0] is not d:
+                    return node
+                for sub in ast.walk(d.value):
+                    if isinstance(sub, ast.Name) and isinstance(sub.ctx, ast.Load):
+                        a = {id(x) for x in flow.reaching(sub.id, d.node)}
+                        b = {id(x) for x in flow.reaching(sub.id, at_node)}
+                        if a != b:
+                            return node
+                return flow.inline(d.value, d.node, depth - 1)
+
+            def visit_Lambda(self, node):
+                return node
+
+        if isinstance(expr, ast.stmt):
+            fresh = ast.parse(ast.unparse(expr)).body[0]
+        else:
+            fresh = ast.parse(ast.unparse(expr), mode="eval").body
+        return Sub().visit(fresh)
+
+    def inlined_function(self) -> ast.AST:
+        """A fresh copy of the function with every pure temporary looked through: the statement that
+        binds the temporary is dropped and its single read is replaced by the bound expression."""
+        if "inlined_fn" in self._memo:
+            return self._memo["inlined_fn"]
+        repl: dict[str, ast.AST] = {}
+        seen: set[str] = set()
+        for n in ast.walk(self.fi.node):
+            if isinstance(n, ast.Name) and isinstance(n.ctx, ast.Load) and n.id not in seen:
+                seen.add(n.id)
+                if self.temp_def(n.id) is None:
+                    continue
+                try:
+                    at = self.cfg.node(n)
+                    new = self.inline(n, at)
+                except Exception:
+                    continue
+                if not (isinstance(new, ast.Name) and new.id == n.id):
+                    repl[n.id] = new
+        fresh = ast.parse(ast.unparse(self.fi.node)).body[0]
+
+        class T(ast.NodeTransformer):
+            def visit_Assign(self, node):
+                if len(node.targets) == 1 and isinstance(node.targets[0], ast.Name) and node.targets[0].id in repl:
+                    return None
+                return self.generic_visit(node)
+
+            def visit_AnnAssign(self, node):
+                if isinstance(node.target, ast.Name) and node.target.id in repl and node.value is not None:
+                    return None
+                return self.generic_visit(node)
+
+            def visit_Name(self, node):
+                if isinstance(node.ctx, ast.Load) and node.id in repl:
+                    return repl[node.id]
+                return node
+
+        fresh = T().visit(fresh)
+        for n in ast.walk(fresh):
+            for fld in ("body", "orelse", "finalbody"):
+                if isinstance(getattr(n, fld, None), list) and fld == "body" and not n.body:
+                    n.body = [ast.Pass()]
+        ast.fix_missing_locations(fresh)
+        self._memo["inlined_fn"] = fresh
+        return fresh
+
     # -------------------------------------------------------------------- terms
     def resolve_func(self, f: ast.AST) -> str:
         """Canonical name of a called function."""
